@@ -116,9 +116,9 @@ def scaled_grid_types():
     """scaled types whose limits are -n*scale .. n*scale for EVERY n of a range and several scales no double represents
     exactly, so that the float quotient limit/scale falls below, on and above the integer n (every rounding direction);
     top level for all n, nested in array / tuple / struct for n <= 8"""
-    nmax = 100 if deep() else 30
+    nmax = 100 if deep() else 20
     res = []
-    for sc in GRID_SCALES:
+    for sc in GRID_SCALES if deep() else GRID_SCALES[:4] + GRID_SCALES[5:]:   # 0.001 shows no inexact quotient for n <= 20
         # the limit as the product n * scale and as the short decimal a programmer writes (0.3 rather than 3 * 0.1)
         leaves = [('scaled', sc, -lim, lim) for n in range(1, nmax + 1)
                   for lim in sorted({n * sc, float(f'{n * sc:.12g}')})]
